@@ -1,6 +1,6 @@
 (* C02 — wire interface. *)
 From Coq Require Import List NArith ZArith Bool.
-From Baize Require Import Lib.Wire Lib.Order C02.Model.
+From Baize Require Import Lib.Wire Lib.Order C02.Model C02.Reuse.
 Import ListNotations.
 
 Definition rd_opt (x : sx) : option bytes :=
@@ -41,14 +41,75 @@ Definition show_asgi (f : bytes) (evs : list event) : sx :=
   | _ => Lst [tag (lit "nostart")]
   end.
 
+(* ---------- the same object answered other requests before (C02/Reuse.v) ----------
+   A case line may carry a 12th field: the list of requests ( head ( range )? ( if-range )? )
+   the SAME response object answers first, oldest first (the harness monkey-patches the
+   boundary, so every request draws the case's boundary).  Lines without it are as before. *)
+
+Definition rd_pre_item (boundary : bytes) (zc : bool) (x : sx) : option req :=
+  match x with
+  | Lst [Num head; rng] =>
+      Some {| q_head := negb (Z.eqb head 0); q_range := rd_opt rng; q_if_range := None;
+              q_boundary := boundary; q_zc := zc |}
+  | Lst [Num head; rng; ifr] =>
+      Some {| q_head := negb (Z.eqb head 0); q_range := rd_opt rng; q_if_range := rd_opt ifr;
+              q_boundary := boundary; q_zc := zc |}
+  | _ => None
+  end.
+
+Fixpoint rd_prelude (boundary : bytes) (zc : bool) (l : list sx) : option (list req) :=
+  match l with
+  | [] => Some []
+  | x :: r => match rd_pre_item boundary zc x, rd_prelude boundary zc r with
+              | Some q, Some qs => Some (q :: qs)
+              | _, _ => None
+              end
+  end.
+
+(* the request fields and the prelude (None: no 12th field) *)
+Definition rd_case (c : list sx) : option (file_req * option (list sx)) :=
+  match rd_req (firstn 11 c), skipn 11 c with
+  | Some r, [] => Some (r, None)
+  | Some r, [Lst pre] => Some (r, Some pre)
+  | _, _ => None
+  end.
+
+Definition req_of (r : file_req) (zc : bool) : req :=
+  {| q_head := fr_head r; q_range := fr_range r; q_if_range := fr_if_range r;
+     q_boundary := fr_boundary r; q_zc := zc |}.
+
+Definition show_reply (f : bytes) (a : reply) : sx :=
+  match a with
+  | RW o => show_wsgi o
+  | RA evs => show_asgi f evs
+  end.
+
+(* the object of the case (constructed without headers=) answers the prelude, then the request *)
+Definition run_reused (r : file_req) (pre : list sx) : list sx :=
+  match rd_prelude (fr_boundary r) false pre, rd_prelude (fr_boundary r) true pre with
+  | Some h, Some hz =>
+      [show_reply (fr_file r) (answer_after true IWsgi r [] h (req_of r false));
+       show_reply (fr_file r) (answer_after true IAsgi r [] h (req_of r false));
+       show_reply (fr_file r) (answer_after true IAsgi r [] hz (req_of r true));
+       (* HEAD: same status and headers as GET from the same object after the same prelude
+          (head_same_headers_empty_body + reuse_history_independent) *)
+       if fr_head r then Lst [of_bool true; of_bool true; of_bool true] else Lst [];
+       (* per interface: how the answer of a FRESH object to the same request differs — it does
+          not (theorem reuse_history_independent) *)
+       Lst [Lst []; Lst []; Lst []]]
+  | _, _ => [tag (lit "badcase")]
+  end.
+
 Definition run_case (c : list sx) : list sx :=
   match c with
   | Str kind :: rest =>
-      match rd_req rest with
-      | Some r => [show_wsgi (wsgi_file r); show_asgi (fr_file r) (asgi_file false r);
+      match rd_case rest with
+      | Some (r, None) =>
+                  [show_wsgi (wsgi_file r); show_asgi (fr_file r) (asgi_file false r);
                    show_asgi (fr_file r) (asgi_file true r);
                    (* HEAD: do the headers equal those of the same request with GET?  (theorem head_same_headers) *)
                    if fr_head r then Lst [of_bool true; of_bool true; of_bool true] else Lst []]
+      | Some (r, Some pre) => run_reused r pre
       | None => [tag (lit "badcase")]
       end
   | _ => [tag (lit "badcase")]
